@@ -105,7 +105,7 @@ def main(tier, replay):
         V, st = protocol.check(raw[jid]['lines'])
         print(V[:5]); sys.exit(1 if V else 0)
     base = chk.seed * 1000000 + 1313
-    n = 1500 if tier == 'quick' else 20000
+    n = 3000 if tier == 'quick' else 20000
     cases = []
     for i in range(n):
         dm = ('lua', 'promela', 'null')[i % 3] if i % 7 else 'null'
